@@ -56,7 +56,9 @@ def to_geo(zone, e, n, south):
 
 
 def to_grid(lat, lon, zone, south):
-    n_, e_, k, g = oracle_tm.forward_np(np.atleast_1d(lat), np.atleast_1d(lon) - cm(zone), A_, F_, K0)
+    dl = np.atleast_1d(np.asarray(lon, float)) - cm(zone)
+    dl = np.where(np.abs(dl) > 180.0, (dl + 180.0) % 360.0 - 180.0, dl)      # zones 60 and 1 are neighbours across the 180-degree meridian
+    n_, e_, k, g = oracle_tm.forward_np(np.atleast_1d(lat), dl, A_, F_, K0)
     return FE + e_, n_ + (FN if south else 0.0), k, g
 
 
@@ -133,6 +135,24 @@ def gen_ell(tier, seed):
     use_ell('grs80')
 
 
+def gen_special(tier, seed):
+    """zones next to the 180-degree meridian with lines towards / across it, and the areas of the UTM system's irregular zones
+    (32V, 31X-37X: this library uses the regular 6-degree zones there; an explicitly given zone must be honoured)"""
+    use_ell('grs80')
+    brgs = [0.0, 45.0, 90.0, 135.0, 180.0, 225.0, 270.0, 315.0]
+    for south, lats in ((True, [-17.0, -44.0]), (False, [16.0, 65.0])):
+        for z, e1s in ((60, [7.0e5, 8.3e5]), (1, [1.7e5, 3.0e5])):
+            for lat in lats:
+                e_, n_, _, _ = to_grid(lat, cm(z), z, south)
+                for e1 in e1s:
+                    yield {'south': south, 'zone': z, 'e1': e1, 'n1': round(float(n_[0]), 4), 'brgs': brgs, 'lengths': [30.0, 1e4, 1e5]}
+    for z in (31, 32, 33, 34, 35, 36, 37):
+        for lat in ((60.0, 78.0) if z <= 33 else (78.0,)):
+            e_, n_, _, _ = to_grid(lat, cm(z), z, False)
+            for e1 in (3.5e5, 5.0e5, 6.5e5):
+                yield {'south': False, 'zone': z, 'e1': e1, 'n1': round(float(n_[0]), 4), 'brgs': brgs[::2] + [60.0], 'lengths': [1e4, 1e5]}
+
+
 def gen_both(tier, seed):
     # identical (zone, easting, northing) interpreted in the southern and then the northern hemisphere (and the reverse)
     # inside one process
@@ -178,12 +198,16 @@ def ev1(case, rec, ell, EOBJ):
                 continue
             la2, lo2, k2, g2 = to_geo(z1, e2, n2, south)
             la2, lo2 = float(la2[0]), float(lo2[0])
-            if not (-80.0 < la2 < 84.0) or not (-180.0 <= lo2 <= 180.0) or (south and la2 > 0) or (not south and la2 < 0):
-                rec.skip('point 2 outside the band / longitude range / hemisphere')
+            if not (-80.0 < la2 < 84.0) or (south and la2 > 0) or (not south and la2 < 0):
+                rec.skip('point 2 outside the band / hemisphere')
                 continue
-            variants = [('same', z1, e2, n2)]
-            # the same second point handed over in the adjacent zone (re-projected by the oracle)
+            variants = [('same', z1, e2, n2)] if -180.0 <= lo2 <= 180.0 else []
+            # the same second point handed over in the adjacent zone (re-projected by the oracle); zones 60 and 1 are
+            # neighbours: a point of zone 60 lying beyond the 180-degree meridian has an in-range longitude in zone 1
             z2 = z1 + 1 if lo2 >= cm(z1) else z1 - 1
+            z2 = 1 if z2 == 61 else 60 if z2 == 0 else z2
+            p2_beyond = not (-180.0 <= lo2 <= 180.0)      # in zone-1 coordinates point 2 lies beyond the 180-degree meridian
+            lo2 = ((lo2 + 180.0) % 360.0) - 180.0 if p2_beyond else lo2
             if 1 <= z2 <= 60:
                 ee, nn, _, _ = to_grid(la2, lo2, z2, south)
                 variants.append(('adjacent', z2, round(float(ee[0]), 4), round(float(nn[0]), 4)))
@@ -195,6 +219,11 @@ def ev1(case, rec, ell, EOBJ):
                 # exact positions of the two points as given (each in its own zone)
                 q2 = to_geo(z2, ee2, nn2, south)
                 la2g, lo2g, g2g = float(q2[0][0]), float(q2[1][0]), float(q2[3][0])
+                if not (-180.0 <= lo2g <= 180.0):
+                    # the property excludes grid points whose longitude (reckoned from their own zone's central meridian) falls
+                    # outside [-180, 180]: a zone-60 coordinate east of the 180-degree meridian, a zone-1 coordinate west of it
+                    rec.skip('point 2 as given in zone %d has a longitude outside [-180, 180]' % z2)
+                    continue
                 st, r = rec.call(vincinv_utm, z1, e1, n1, z2, ee2, nn2, hemi, EOBJ)
                 if st != 'ok':
                     rec.fail('vincinv_utm raised on valid grid points', site='geodesy:vincinv_utm', observed=r, case=one, coords=co)
@@ -251,6 +280,12 @@ def ev1(case, rec, ell, EOBJ):
                     rec.fail('line_sf disagrees with the line scale factor reported by vincinv_utm', site='geodesy:line_sf:consistency',
                              observed=ls, expected=lsf, case=one, coords=co)
                 # depth 2: the direct computation with the inverse's output reproduces point 2 in zone 1
+                if p2_beyond:
+                    # ... unless point 2, expressed in the first point's zone, is one of the excluded grid points (longitude
+                    # reckoned from that zone's central meridian outside [-180, 180])
+                    rec.skip('point 2 in the first point\'s zone lies beyond the 180-degree meridian')
+                    rec.outcome(('bad-' if bad else 'ok-') + vname + '-inverse-only')
+                    continue
                 st, d = rec.call(vincdir_utm, z1, e1, n1, b12, gd, hemi, EOBJ)
                 if st != 'ok':
                     bad = True
@@ -300,7 +335,7 @@ from gpmc import callforms as _cf
 from gpmc import interp as _ip
 
 
-SUBCHECKS = [Sub('grid_geodesic', gen, ev, chunk=1, floor=500, guard=True, envs=8), Sub('ellipsoids', gen_ell, ev, chunk=1, floor=300, guard=True), Sub('both_hemispheres', gen_both, ev_both, chunk=1, floor=100, guard=True, envs=4), Sub('threads', _tg, _te, chunk=1, floor=3, poison=False, fresh=True, timeout=3600), Sub('callforms', *_cf.make('C14', 'geodesy'), chunk=1, floor=1, guard=True), Sub('interpreter', *_ip.make('C14', 'geodesy'), chunk=1, floor=5, poison=False)]
+SUBCHECKS = [Sub('grid_geodesic', gen, ev, chunk=1, floor=500, guard=True, envs=8), Sub('ellipsoids', gen_ell, ev, chunk=1, floor=300, guard=True), Sub('special_zones', gen_special, ev, chunk=1, floor=100, guard=True), Sub('both_hemispheres', gen_both, ev_both, chunk=1, floor=100, guard=True, envs=4), Sub('threads', _tg, _te, chunk=1, floor=3, poison=False, fresh=True, timeout=3600), Sub('callforms', *_cf.make('C14', 'geodesy'), chunk=1, floor=1, guard=True), Sub('interpreter', *_ip.make('C14', 'geodesy'), chunk=1, floor=5, poison=False)]
 
 
 def bounds(tier, seed):
